@@ -14,6 +14,7 @@ from pddl_plus_parser.models import (
     State,
     GroundedPredicate,
     NumericalExpressionTree,
+    PDDLFunction,
 )
 from pddl_plus_parser.multi_agent.common import create_initial_state, apply_actions
 
@@ -81,6 +82,42 @@ class PlanConverter:
 
         return discrete_preconditions, numeric_preconditions
 
+    def _extract_effect_dependencies(
+        self, operator: Operator
+    ) -> Tuple[Set[str], Set[str]]:
+        """Extracts what the effects of the operator read: the atoms and the numeric functions in the conditions of
+        its conditional effects and the numeric functions in the assigned values of its numeric effects.
+
+        :param operator: the operator.
+        :return: the grounded atoms and the grounded numeric functions that the operator's effects depend on.
+        """
+        self.logger.debug("Extracting what the effects of the operator depend on!")
+        atoms = set()
+        functions = set()
+        for effect in operator.grounded_effects:
+            expressions = [
+                NumericalExpressionTree(numeric_effect.root.children[1])
+                for numeric_effect in effect.grounded_numeric_effects
+            ]
+            if effect.grounded_antecedents is not None:
+                for _, condition in effect.grounded_antecedents:
+                    if isinstance(condition, GroundedPredicate):
+                        atom = condition.copy()
+                        atom.is_positive = True
+                        atoms.add(atom.untyped_representation)
+
+                    if isinstance(condition, NumericalExpressionTree):
+                        expressions.append(condition)
+
+            for expression in expressions:
+                functions.update(
+                    node.value.untyped_representation
+                    for node in expression
+                    if node.is_leaf and isinstance(node.value, PDDLFunction)
+                )
+
+        return atoms, functions
+
     def _extract_grounded_effects(
         self, operator: Operator
     ) -> Tuple[Set[str], Set[str], Set[str]]:
@@ -135,6 +172,8 @@ class PlanConverter:
         accumulated_discrete_preconditions = set()
         accumulated_affected_numeric_functions = set()
         accumulated_precondition_numeric_functions = set()
+        accumulated_effect_atoms = set()
+        accumulated_effect_functions = set()
         for action_call in combined_actions:
             if action_call.name == NOP_ACTION:
                 continue
@@ -159,6 +198,9 @@ class PlanConverter:
             ) = self._extract_grounded_preconditions(op)
             accumulated_discrete_preconditions.update(discrete_preconditions)
             accumulated_precondition_numeric_functions.update(numeric_preconditions)
+            effect_atoms, effect_functions = self._extract_effect_dependencies(op)
+            accumulated_effect_atoms.update(effect_atoms)
+            accumulated_effect_functions.update(effect_functions)
 
         (
             next_action_add_effects,
@@ -169,6 +211,10 @@ class PlanConverter:
             next_action_discrete_preconditions,
             next_action_numeric_preconditions,
         ) = self._extract_grounded_preconditions(next_action)
+        (
+            next_action_effect_atoms,
+            next_action_effect_functions,
+        ) = self._extract_effect_dependencies(next_action)
 
         return not (
             len(accumulated_add_effects.intersection(next_action_del_effects)) > 0
@@ -190,8 +236,21 @@ class PlanConverter:
             )
             > 0
             or len(
-                accumulated_precondition_numeric_functions.intersection(
-                    next_action_numeric_preconditions
+                accumulated_effect_atoms.intersection(
+                    next_action_add_effects.union(next_action_del_effects)
+                )
+            )
+            > 0
+            or len(
+                next_action_effect_atoms.intersection(
+                    accumulated_add_effects.union(accumulated_delete_effects)
+                )
+            )
+            > 0
+            or len(accumulated_effect_functions.intersection(numeric_effects)) > 0
+            or len(
+                next_action_effect_functions.intersection(
+                    accumulated_affected_numeric_functions
                 )
             )
             > 0
